@@ -374,6 +374,14 @@ class MethodsMixin:
                 self.check_range(r, rv.ty, "pow")
                 return I(r, rv.ty)
             raise Unsupported("symbolic pow")
+        if name in ("is_ascii_digit", "is_ascii_alphabetic", "is_ascii_alphanumeric", "is_ascii_whitespace", "is_ascii_uppercase", "is_ascii_lowercase", "is_ascii_punctuation"):
+            import string as _s
+            sets = {"is_ascii_digit": _s.digits, "is_ascii_alphabetic": _s.ascii_letters, "is_ascii_alphanumeric": _s.ascii_letters + _s.digits,
+                    "is_ascii_whitespace": " \t\n\x0c\r", "is_ascii_uppercase": _s.ascii_uppercase, "is_ascii_lowercase": _s.ascii_lowercase,
+                    "is_ascii_punctuation": _s.punctuation}[name]
+            if rv.conc():
+                return 0 <= rv.v < 128 and chr(rv.v) in sets
+            return bor(*[rv.z() == ord(ch) for ch in sets])
         if name == "is_positive":
             return self.int_cmp(">", rv, I(0))
         if name == "is_negative":
@@ -528,6 +536,9 @@ class MethodsMixin:
         if name == "strip_suffix":
             o = D()
             return some(S(s[: len(s) - len(o.v)])) if o.v and s.endswith(o.v) or (not o.v) else none()
+        if name in ("as_bytes", "bytes", "into_bytes"):
+            bs = [I(b, "u8") for b in s.encode()]
+            return Vc(bs) if name != "bytes" else Seq([(True, b) for b in bs])
         if name == "chars":
             return Seq([(True, S(c)) for c in s])
         if name == "split":
